@@ -37,3 +37,15 @@ PROPS["C02"] = dict(
     ],
     assumptions=["terms are well-formed: an untagged literal is never typed rdf:langString (the Term contract); lemma wf_needed shows the order laws fail otherwise"],
 )
+
+PROPS["C15"] = dict(
+    level="proof",
+    runs=[dict(bin="c15")],
+    quick=dict(n=3000, shards=16),
+    thorough=dict(n=120000, shards=128, run_timeout=3000, coq_case_timeout=3000),
+    trusted_base=[
+        "model coq/C15/Model.v of api/src/source.rs, source/{filter,map,filter_map,convert}.rs and of insert_all/remove_all counting in api/src/{graph,dataset}.rs (hand-written, continuation style as the code)",
+        "parsers are modelled as a source that yields Ok statements up to the syntax error, then Err; the N-Triples serializer and the capacity-limited store are consumers whose failure is a sink error value",
+    ],
+    assumptions=["closures given to adapters are pure functions of the item (the harness uses such closures)"],
+)
